@@ -221,7 +221,10 @@ func (m *confModel) render(l layout) string {
 			}
 		},
 		func() {
-			sb.WriteString("[appdefaults]\n pam = {\n   debug = false\n   kdc = should.be.ignored\n }\n[logging]\n default = FILE:/var/log/krb5libs.log\n")
+			// sections this library does not interpret, under names of every shape (whatever stands between the
+			// brackets names a section): their relations and blocks belong to them, not to the section before
+			names := []string{"appdefaults", "app-defaults", "kdc.defaults", " logging ", "plugins", "", "db modules", "otp/2fa"}
+			sb.WriteString("[" + names[l.r.Intn(len(names))] + "]\n pam = {\n   debug = false\n   kdc = should.be.ignored\n }\n[" + names[l.r.Intn(len(names))] + "]\n default = FILE:/var/log/krb5libs.log\n")
 		},
 	}
 	order := []int{0, 1, 2, 3}
@@ -274,7 +277,22 @@ func genConfModel(r *RNG) *confModel {
 	}
 	nr := r.Intn(5)
 	for i := 0; i < nr; i++ {
-		cr := confRealm{name: fmt.Sprintf("REALM%d.EXAMPLE.COM", i), nested: r.Intn(3) == 0, v4: r.Intn(5) == 0}
+		// realm names are case sensitive: a name may carry lower case, and two realms may differ in case only
+		name := fmt.Sprintf("REALM%d.EXAMPLE.COM", i)
+		switch r.Intn(4) {
+		case 0:
+			name = fmt.Sprintf("Realm%d.Example.Com", i)
+		case 1:
+			if i > 0 {
+				name = strings.ToLower(m.realms[r.Intn(i)].name)
+				for _, o := range m.realms {
+					if o.name == name {
+						name = fmt.Sprintf("realm%d.example.com", i)
+					}
+				}
+			}
+		}
+		cr := confRealm{name: name, nested: r.Intn(3) == 0, v4: r.Intn(5) == 0}
 		srv := func(n int, port string) []string {
 			var out []string
 			k := r.Intn(n + 1)
